@@ -26,7 +26,12 @@ def direct(files, r):
 def main(ctx):
     search = mc.run(ctx, THEOREM_MODULES, project, direct,
                     "guards / argument counts / unwrap sequence / call parameters / return wrapping differ from the proved-correct ones",
-                    "", cfg_kw=dict(p_default=0.7, max_args=5))
+                    "", cfg_kw=dict(p_default=0.7, max_args=5),
+                    extra_streams=[
+                        # many free functions with non-adjacent overloads and trailing defaults, in nested namespaces
+                        (dict(extra_kinds=['func'] * 8, max_decls=7, max_members=2), 0.4),
+                        # overloaded static methods and constructors (member names from a small pool)
+                        (dict(mnames=["Create", "Count", "f"], extra_member_kinds=['static', 'static', 'ctor'], max_members=6), 0.3)])
     return fw.finish(ctx, search=search, assumptions=["hand-written model of matlab_wrapper/wrapper.py, tied byte-exactly on generated inputs"])
 
 
